@@ -43,81 +43,6 @@ static bool c14_call(Context& cx, const Target& tg, const xsv_entry* e, const T*
     return true;
 }
 
-// Arguments for which the large-argument reduction of sin/cos/tan is hardest: representable values extremely close to a
-// multiple of pi/2, where the leading chunks of the reduced argument vanish and the reduction recomputes with more terms.
-// double: the nearest double to k*pi/2 for k spread over [2^19, 2^27] (residual below 2^-26) and some larger k;
-// float: for every scaling s the continued-fraction convergents q < 2^24 of frac(2^s * 2/pi) give x = q * 2^s, the floats
-// nearest to a multiple of pi/2 in the whole format (MPFR, 512 bits).
-template <class T>
-static std::vector<T> pio2_hard_cases()
-{
-    std::vector<T> v;
-    mpfr_t pio2, a, fr, t, one;
-    mpfr_inits2(512, pio2, a, fr, t, one, (mpfr_ptr)0);
-    mpfr_const_pi(pio2, MPFR_RNDN);
-    mpfr_div_2ui(pio2, pio2, 1, MPFR_RNDN);
-    if (sizeof(T) == 8)
-    {
-        for (int i = 0; i < 160; ++i)
-        {
-            // k spread geometrically over [2^19, 2^27], then a few up to 2^50
-            const double kk = std::floor(std::ldexp(1.0, 19) * std::pow(2.0, 8.0 * i / 128.0) * (i < 128 ? 1.0 : std::ldexp(1.0, (i - 127) * 0.7)) + 7 * i);
-            mpfr_mul_d(t, pio2, kk, MPFR_RNDN);
-            const double x = mpfr_get_d(t, MPFR_RNDN);
-            v.push_back((T)x);
-            v.push_back((T)-x);
-        }
-    }
-    else
-    {
-        for (int sh = -4; sh <= 104; ++sh)
-        {
-            // alpha = 2^sh * 2/pi ; only its fractional part matters
-            mpfr_ui_div(a, 1, pio2, MPFR_RNDN);
-            if (sh >= 0)
-                mpfr_mul_2ui(a, a, (unsigned long)sh, MPFR_RNDN);
-            else
-                mpfr_div_2ui(a, a, (unsigned long)-sh, MPFR_RNDN);
-            mpfr_frac(fr, a, MPFR_RNDN);
-            // continued fraction of fr: denominators q_i
-            double qm1 = 0, q0 = 1; // q_{-1}, q_0 for the expansion [0; a1, a2, ...]
-            mpfr_set_ui(one, 1, MPFR_RNDN);
-            double qs[64];
-            int nq = 0;
-            for (int it = 0; it < 60 && !mpfr_zero_p(fr); ++it)
-            {
-                mpfr_div(t, one, fr, MPFR_RNDN);
-                mpfr_floor(a, t);
-                const double ai = mpfr_get_d(a, MPFR_RNDN);
-                mpfr_sub(fr, t, a, MPFR_RNDN);
-                const double q1 = ai * q0 + qm1;
-                if (q1 >= 16777216.0)
-                {
-                    // the largest semiconvergent below 2^24 is a good approximation too
-                    const double tt = std::floor((16777215.0 - qm1) / q0);
-                    if (tt >= 1)
-                        qs[nq++] = tt * q0 + qm1;
-                    break;
-                }
-                qs[nq++] = q1;
-                qm1 = q0;
-                q0 = q1;
-            }
-            for (int i = std::max(0, nq - 4); i < nq; ++i)
-            {
-                const double x = std::ldexp(qs[i], sh);
-                if (x > 1000.0 && x < 3.0e38)
-                {
-                    v.push_back((T)x);
-                    v.push_back((T)-x);
-                }
-            }
-        }
-    }
-    mpfr_clears(pio2, a, fr, t, one, (mpfr_ptr)0);
-    return v;
-}
-
 template <class T>
 static std::vector<T> c14_extremes()
 {
